@@ -169,7 +169,7 @@ var (
 
 var c13faults = &h.Campaign[CacheFaultCase]{
 	Prop: "C13", Sub: "filecache-faults",
-	Rule: "rapid draws (old document present or not, sizes); a child process performs FileCache.Write under strace and the complete fault plan of the traced window is executed (every errno at every position, SIGKILL before every position and after the last, short writes via RLIMIT_FSIZE alone and followed by SIGKILL); kill => the file is byte-exactly the old or the new document; error => the old document is still there and the next write succeeds; the un-faulted trace is monitored (temporary in the same directory with O_EXCL, fsync before rename, no in-place write), mode 0600; non-trivial = faults fired inside the window; distinct by scenario",
+	Rule: "rapid draws (old document present or not, sizes); a child process performs FileCache.Write under strace and the complete fault plan of the traced window is executed (every errno at every position, SIGKILL before every position and after the last, short writes via RLIMIT_FSIZE alone and followed by SIGKILL); kill => the file is byte-exactly the old or the new document; error => the old document is still there and the next write succeeds; the un-faulted trace is monitored (temporary in the same directory with payload to another file, fsync before rename, no in-place write), mode 0600; non-trivial = faults fired inside the window; distinct by scenario",
 	Quick: 6, Thorough: 400,
 	Gen: func(rt *rapid.T) CacheFaultCase {
 		return CacheFaultCase{HasOld: rapid.Bool().Draw(rt, "hasold"), OldN: rapid.IntRange(0, 4).Draw(rt, "oldn"), NewN: rapid.IntRange(0, 4).Draw(rt, "newn"), Pad: rapid.SliceOfN(rapid.Byte(), 0, 200).Draw(rt, "pad")}
